@@ -23,7 +23,8 @@ def module_of(path):
 def one(seed):
     meta = json.load(open(os.path.join(seed, "meta.json")))
     pid = meta["property"]
-    tag = "%s-%s" % (pid, os.path.basename(seed.rstrip("/")))
+    inplace = os.path.realpath(seed).startswith("/verif/seeded/")   # regression run over the stored seeds
+    tag = os.path.basename(seed.rstrip("/")) if inplace else "%s-%s" % (pid, os.path.basename(seed.rstrip("/")))
     d = "/tmp/seedrun-%s-%d" % (tag, os.getpid())
     shutil.rmtree(d, ignore_errors=True)
     shutil.copytree("/repo", d, ignore=shutil.ignore_patterns(".git"))
@@ -89,13 +90,14 @@ def one(seed):
         res["check_exit"] = p.returncode
         res["check_output"] = lines[-4:]
         res["check_wall_s"] = round(time.time() - t0, 1)
-        res["caught"] = p.returncode == 1
+        res["caught"] = p.returncode == 1 and any("VIOLATION property=" + pid in l for l in lines)
         # keep it
         dst = os.path.join("/verif/seeded", tag)
-        shutil.rmtree(dst, ignore_errors=True)
-        os.makedirs(dst)
-        for n in os.listdir(seed):
-            shutil.copy(os.path.join(seed, n), dst)
+        if not inplace:
+            shutil.rmtree(dst, ignore_errors=True)
+            os.makedirs(dst)
+            for n in os.listdir(seed):
+                shutil.copy(os.path.join(seed, n), dst)
         meta["confirmed_by_main"] = {k: res[k] for k in ("demo_without_change", "demo_with_change", "existing_tests_with_change")}
         meta["check_result"] = {k: res[k] for k in ("check_exit", "check_output", "check_wall_s", "caught")}
         json.dump(meta, open(os.path.join(dst, "meta.json"), "w"), indent=1)
